@@ -68,6 +68,23 @@ func c12StepCheck(x *cpuCtx, c *cpuCase) (sig, what string, nontrivial bool) {
 		}
 		nontrivial = true
 	}
+	// "a registered program-counter callback runs BEFORE the instruction fetched at its address": a callback
+	// that replaces the opcode byte with NOP must make the interpreter execute the NOP (only the primary
+	// interpreter consults OnPC; fetch sweep and plain states only)
+	if c.Sweep == "fetch" && c.Int <= 1 && !c.S.Stopped {
+		m := x.ms[0]
+		m.Mem().ResetFrom(&x.img)
+		raw := mkRaw(c.S, 0, 0)
+		m.Load(raw)
+		at := uint32(raw.RK)<<16 | uint32(raw.PC)
+		calls := 0
+		m.SetOnPC(map[uint32]func(){at: func() { calls++; m.Mem().Set(at, 0xEA) }})
+		_, _, pn := m.Step()
+		m.SetOnPC(nil)
+		if post := m.Save(); pn == nil && (calls != 1 || post.PC != raw.PC+1 || post.RK != raw.RK) {
+			return "unexplained:onpc-runs-after-fetch:" + e.Mn, fmt.Sprintf("a callback registered at %02x:%04x replaced the opcode $%02x there with NOP; it ran %d times and the step ended at %02x:%04x, not one byte further: the opcode was fetched before the callback ran | case %s", raw.RK, raw.PC, c.Op, calls, post.RK, post.PC, c.String()), true
+		}
+	}
 	return "", "", nontrivial
 }
 
@@ -86,7 +103,7 @@ func c12ProgOracle(e *progEnv, res *progStepResult) (sig, what string, descend b
 			return "unexplained:program:allcycles:" + name + ":" + mn, fmt.Sprintf("%s: AllCycles %d -> %d but Step reported %d after %v", name, res.pre[i].AllCycles, res.post[i].raw.AllCycles, cy, e.pathNames()), false
 		}
 		want := res.pre[i].Stopped || mn == "STP"
-		if symIntr(e.syms[res.sym].name) != 0 {
+		if symIntr(e.syms[res.sym].name) != 0 || res.pre[i].Interrupt > 1 {
 			// an interrupt taken in this step redirects the fetch to the handler: whatever sits there executes
 			want = res.pre[i].Stopped || res.post[i].raw.Stopped
 		}
@@ -482,10 +499,66 @@ func c12Exec(w *c12World, r c12Run) (sig, what string) {
 	return "", ""
 }
 
+// c12Mover is a logger whose Commit moves the program counter (a trace sink that rewinds to a checkpoint
+// would): "returns true exactly when the program counter equals the target ON EXIT" -- exit is after Commit.
+type c12Mover struct {
+	sys *emulator.System
+	to  uint32
+}
+
+func (l *c12Mover) Write(p []byte) (int, error) { return len(p), nil }
+func (l *c12Mover) Reserve(int)                 {}
+func (l *c12Mover) Commit()                     { l.sys.SetPC(l.to) }
+
+type c12MoveCase struct {
+	MoveProg   []string `json:"move_program"`
+	Start      uint32   `json:"start"`
+	Target     uint32   `json:"target"`
+	Budget     uint64   `json:"budget"`
+	CommitSets uint32   `json:"commit_sets_pc"`
+}
+
+func c12MoveRun(w *c12World, c c12MoveCase) (sig, what string) {
+	rr := c12Run{Prog: c.MoveProg, Start: c.Start, Target: c.Target, Budget: c.Budget}
+	if _, _, err := c12Assemble(rr.Prog, rr.Start); err != nil {
+		return "bad-case", err.Error()
+	}
+	c12Prepare(w.sut, rr)
+	w.sut.Logger = &c12Mover{w.sut, c.CommitSets}
+	var got bool
+	var pn interface{}
+	func() {
+		defer func() { pn = recover() }()
+		got = w.sut.RunUntil(c.Target, c.Budget)
+	}()
+	w.sut.Logger = nil
+	w.skipped = true // the twin did not run: wipe before the next ordinary scenario
+	if pn != nil {
+		return "unexplained:rununtil-panics", fmt.Sprintf("RunUntil panicked: %v | %+v", pn, c)
+	}
+	if got != (w.sut.GetPC() == c.Target) {
+		return "unexplained:rununtil-result", fmt.Sprintf("RunUntil returned %v but on exit PC=$%06x and the target is $%06x (the logger's Commit moved the PC to $%06x) | %+v", got, w.sut.GetPC(), c.Target, c.CommitSets, c)
+	}
+	return "", ""
+}
+
 func replayC12(raw json.RawMessage) (string, error) {
+	cpuDirtIRQ = true
 	var pp progPath
 	if json.Unmarshal(raw, &pp) == nil && len(pp.Syms) > 0 {
 		return progReplay(pp, progSeeds(true), progAlphabetInt(), false, c12ProgOracle, progOwnPC)
+	}
+	var mc c12MoveCase
+	if json.Unmarshal(raw, &mc) == nil && len(mc.MoveProg) > 0 {
+		w, err := c12NewWorld()
+		if err != nil {
+			return "", err
+		}
+		sig, what := c12MoveRun(w, mc)
+		if sig == "" {
+			return "the result describes the program counter on exit", nil
+		}
+		return what, fmt.Errorf("%s", sig)
 	}
 	var rr c12Run
 	if json.Unmarshal(raw, &rr) == nil && len(rr.Prog) > 0 {
@@ -559,6 +632,7 @@ func c12Scenarios(depth int, loggers []int, budgets []uint64) []c12Run {
 }
 
 func runC12(r *report.Run) {
+	cpuDirtIRQ = true
 	thorough := r.Tier == "thorough"
 	// ---- Step part: single steps
 	o := cpuSweepOpts{thorough: thorough, withE: true, withInt: true, seed: r.Seed}
@@ -634,6 +708,23 @@ func runC12(r *report.Run) {
 			r.Violation(sig, what, runs[i])
 		}
 	})
+	// a logger whose Commit moves the PC onto / off the target
+	if w, err := c12NewWorld(); err == nil {
+		for _, prog := range [][]string{{"NOP", "NOP", "NOP"}, {"INX", "BRA -3"}} {
+			_, bounds, _ := c12Assemble(prog, 0x7E2000)
+			for _, t := range bounds {
+				for _, b := range []uint64{0, 1, 4, 50} {
+					for _, to := range []uint32{t, t ^ 1, 0x7E2000, 0x008000} {
+						mc := c12MoveCase{prog, 0x7E2000, t, b, to}
+						executed++
+						if sig, what := c12MoveRun(w, mc); sig != "" {
+							r.Violation(sig, what, mc)
+						}
+					}
+				}
+			}
+		}
+	}
 	r.Set("program_search", map[string]interface{}{"depth": depth, "alphabet": len(syms), "seed_states": len(seeds), "distinct_states": st, "steps_executed": tr})
 	r.Set("rununtil", map[string]interface{}{"programs": len(c12Programs(pdepth)), "program_depth": pdepth, "alphabet": len(c12Alphabet), "budgets": budgets, "scenarios_executed": executed})
 	r.Set("single_step_cases_by_sweep", counts)
@@ -647,7 +738,7 @@ func runC12(r *report.Run) {
 			r.Sample(cs)
 		}
 	}
-	r.Set("rule", "Step part: every case of the five sweeps (E, pending interrupts, Stopped before/after) on both interpreters: cycles >= 1, AllCycles grows by exactly the reported count, stop status as specified, OnWDM receives exactly the operand (all 256); sequences: the same along every program of the search incl. steps after STP and Reset. RunUntil part: every program up to depth 3 over a 16-instruction alphabet (loops, STP, block move, calls) x 2 placements x every instruction boundary / inside-operand / unreachable target / boundary with bits above the 24-bit space set x the budget alphabet (budgets 1, 3, 8 also with the running cycle total two below 2^64 at entry) on a real emulator.System, compared with a twin System stepped by hand (final CPU state, memory, result; then a second RunUntil call on the same System towards the end of the program, compared again) with program-counter callbacks on every program byte (exactly once per fetch, pre-instruction state) that double as a non-termination guard")
+	r.Set("rule", "Step part: every case of the five sweeps (E, pending interrupts, Stopped before/after) on both interpreters: cycles >= 1, AllCycles grows by exactly the reported count, stop status as specified, OnWDM receives exactly the operand (all 256), an OnPC callback that patches the opcode it stands on takes effect on that very step; sequences: the same along every program of the search incl. steps after STP and Reset. RunUntil part: every program up to depth 3 over a 16-instruction alphabet (loops, STP, block move, calls) x 2 placements x every instruction boundary / inside-operand / unreachable target / boundary with bits above the 24-bit space set x the budget alphabet (budgets 1, 3, 8 also with the running cycle total two below 2^64 at entry) on a real emulator.System, compared with a twin System stepped by hand (final CPU state, memory, result; then a second RunUntil call on the same System towards the end of the program, compared again) with program-counter callbacks on every program byte (exactly once per fetch, pre-instruction state) that double as a non-termination guard")
 	r.Sample(c12Run{Prog: []string{"LDA #$1234", "BRA -2"}, Start: 0x7E2000, Target: 0x7E2003, Budget: 13})
 	r.Sample(c12Run{Prog: []string{"STP", "NOP"}, Start: 0x008000, Target: 0x008001, Budget: 50})
 	r.Assume("the twin is a second real System stepped by hand: the loop logic of RunUntil is judged, the Step semantics are judged by C01/C02")
